@@ -2,6 +2,7 @@
    `mpchk` evaluates the generic mapping formulas at `Float` and compares with the answer of the Go
    implementation carried on the line, within the tolerance δ; `mapenc`/`mapeq` exercise the
    identity of a mapping through its serialized forms and the tolerance-based equality. -/
+import DDS.Model.Ctor
 import DDS.Driver.FloatOps
 import DDS.Model.Sketch
 import DDS.Driver.Util
@@ -95,15 +96,15 @@ def run (args : List String) (cmd : String) : String :=
   -- constructors (C13): accuracies outside (0,1) and bases not above one are refused
   | "mkalpha", [_kind, a] =>
     match parseF64 a with
-    | some a => if F64.le a (.fin 0) || F64.ge a (.fin 1) then "err" else "ok"
+    | some a => if Ctor.alphaRefused a then "err" else "ok"
     | none => "bad-op"
   | "mkgamma", [_kind, g, _o] =>
     match parseF64 g with
-    | some g => if F64.le g (.fin 1) then "err" else "ok"
+    | some g => if Ctor.gammaRefused g then "err" else "ok"
     | none => "bad-op"
   | "mkbin", [_i, c] =>
     match parseF64 c with
-    | some c => if F64.lt c (.fin 0) then "err" else "ok"
+    | some c => if Ctor.binRefused c then "err" else "ok"
     | none => "bad-op"
   | "mapenc", [kind, g, o, bytes] =>
     match parseKind kind, parseF64 g, parseF64 o, parseBytes bytes with
